@@ -29,3 +29,14 @@ def mc_structs(run, kinds=("mapping", "cert", "identity"), negative_control=True
 TRUSTED = ("Trusted: TLC's evaluation of the specification; the Go driver (no layout knowledge: it only calls the public API, copies bytes and "
            "compares byte slices); Go's standard library. Exhaustive only within the stated bounds (Small instance for content, shape space for "
            "real-size encodings); real-size byte content is position-dependent fill, real keys or seeded pseudo-random.")
+
+
+def mc_fresh(run, controls=("template", "pool", "onto-field")):
+    """Who owns the memory behind a result (MC_Fresh): every result an array of its own satisfies ResultRight, KeptStable and InputStable
+    in every reachable state; a constructor handing out copies of a template, a serialiser handing out its recycled buffer and a
+    serialiser appending onto a field that views the input buffer are negative controls TLC must refute."""
+    run.mc("MC_Fresh", consts={"Variant": "fresh", "MaxResults": 5}, invariants=["ResultRight", "KeptStable", "InputStable"], tag="MC_Fresh_fresh", workers=4)
+    inv = {"template": "ResultRight", "pool": "KeptStable", "onto-field": "InputStable"}
+    for v in controls:
+        run.mc("MC_Fresh", consts={"Variant": v, "MaxResults": 4}, invariants=[inv[v]], tag="MC_Fresh_" + v.replace("-", ""),
+               expect_violation=inv[v], workers=1)
